@@ -56,7 +56,7 @@ def detect(patch, pids):
                         except Exception:
                             pass
     finally:
-        sh("git -C /repo checkout -- .")
+        sh("git -C /repo checkout -- . && git -C /repo clean -fdq")
     print(json.dumps(res, indent=1))
     return res
 
